@@ -1,4 +1,607 @@
 import Pun.Model.Hier
 import Pun.Lemmas.PBoxFrechet
+import Pun.Lemmas.Hull
+import Mathlib.Tactic.Linarith
+import Mathlib.Tactic.Ring
+import Mathlib.Algebra.Order.Field.Basic
+/-!
+# Constant p-boxes (embedded intervals) are closed under every primitive of the p-box model
+
+`ofIvl n a b = ⟨replicate n a, replicate n b⟩`.  Each primitive of `Pun.PBox` maps constant
+p-boxes to constant p-boxes; the lemmas here compute the constants.
+-/
+set_option linter.unusedSimpArgs false
+set_option linter.unusedVariables false
 namespace Pun.Hier
+open Pun Pun.PBox
+
+@[simp] theorem ok_bind {α β : Type} (a : α) (f : α → Except Err β) :
+    ((Except.ok a : Except Err α) >>= f) = f a := rfl
+
+@[simp] theorem error_bind {α β : Type} (e : Err) (f : α → Except Err β) :
+    ((Except.error e : Except Err α) >>= f) = Except.error e := rfl
+
+/-! ## lists of one repeated value -/
+
+theorem sortR_replicate (n : Nat) (v : Rat) : sortR (List.replicate n v) = List.replicate n v :=
+  sortR_of_sorted _ (List.pairwise_replicate.mpr (Or.inr (le_refl v)))
+
+theorem isIncreasing_of_pairwise : ∀ (l : List Rat), l.Pairwise (· ≤ ·) → isIncreasing l = true
+  | [], _ => rfl
+  | [_], _ => rfl
+  | a :: b :: t, h => by
+    have h1 : a ≤ b := (List.pairwise_cons.mp h).1 b (by simp)
+    have h2 := isIncreasing_of_pairwise (b :: t) (List.pairwise_cons.mp h).2
+    simp [isIncreasing, h1, h2]
+
+theorem isIncreasing_replicate (n : Nat) (v : Rat) : isIncreasing (List.replicate n v) = true :=
+  isIncreasing_of_pairwise _ (List.pairwise_replicate.mpr (Or.inr (le_refl v)))
+
+theorem maxL_replicate (d : Rat) (n : Nat) (v : Rat) (hn : 0 < n) : maxL d (List.replicate n v) = v := by
+  have hne : List.replicate n v ≠ [] := by
+    intro h; have := congrArg List.length h; simp at this; omega
+  obtain ⟨hm, -⟩ := maxL_spec d _ hne
+  exact List.eq_of_mem_replicate hm
+
+theorem minL_replicate (d : Rat) (n : Nat) (v : Rat) (hn : 0 < n) : minL d (List.replicate n v) = v := by
+  have hne : List.replicate n v ≠ [] := by
+    intro h; have := congrArg List.length h; simp at this; omega
+  obtain ⟨hm, -⟩ := minL_spec d _ hne
+  exact List.eq_of_mem_replicate hm
+
+theorem lexGe_replicate (n : Nat) (u v : Rat) (hn : 0 < n) :
+    lexGe (List.replicate n u) (List.replicate n v) = decide (u ≥ v) := by
+  induction n with
+  | zero => omega
+  | succ k ih =>
+    simp only [List.replicate_succ, lexGe]
+    rcases lt_trichotomy u v with h | h | h
+    · simp [h, not_lt.mpr (le_of_lt h), not_le.mpr h]
+    · subst h
+      simp only [lt_irrefl, if_false, ge_iff_le, le_refl, decide_true]
+      cases k with
+      | zero => simp [lexGe]
+      | succ m => simpa using ih (by omega)
+    · simp [h, le_of_lt h]
+
+theorem allGe_replicate (n : Nat) (u v : Rat) (hn : 0 < n) :
+    allGe (List.replicate n u) (List.replicate n v) = decide (u ≥ v) := by
+  unfold allGe
+  rw [List.zip_replicate', List.all_replicate]
+  simp [Nat.pos_iff_ne_zero.mp hn]
+
+theorem condenseIdx_lt (len n k : Nat) (hlen : 0 < len) (hk : k < n) : condenseIdx len n k < len := by
+  unfold condenseIdx
+  split
+  · exact hlen
+  · rename_i h
+    have h1 : k ≤ n - 1 := by omega
+    have h2 : k * (len - 1) ≤ (n - 1) * (len - 1) := Nat.mul_le_mul_right _ h1
+    have h3 : k * (len - 1) / (n - 1) ≤ len - 1 := by
+      calc k * (len - 1) / (n - 1) ≤ (n - 1) * (len - 1) / (n - 1) := Nat.div_le_div_right h2
+        _ = len - 1 := Nat.mul_div_cancel_left _ (by omega)
+    omega
+
+theorem condense_replicate (n m : Nat) (v : Rat) (hm : 0 < m) :
+    condense n (List.replicate m v) = List.replicate n v := by
+  unfold condense
+  apply List.ext_getElem
+  · simp
+  · intro i h1 h2
+    simp only [List.length_map, List.length_range] at h1
+    have := condenseIdx_lt m n i hm h1
+    simp [List.getD_eq_getElem?_getD, List.getElem?_replicate, this]
+
+theorem boundSteps_replicate (n m : Nat) (v : Rat) (hm : 0 < m) (hnm : n ≤ m) :
+    boundSteps n (List.replicate m v) = .ok (List.replicate n v) := by
+  unfold boundSteps
+  simp only [List.length_replicate]
+  by_cases h : m > n
+  · simp [h, condense_replicate n m v hm]
+  · have : m = n := by omega
+    subst this; simp
+
+/-- the constructor on two constant lists (possibly longer than `steps`): the constant p-box with
+the two values in order (the `left ≥ right` switch of either form exchanges them) -/
+theorem mk_replicate (n m : Nat) (lists : Bool) (u v : Rat) (hn : 0 < n) (hnm : n ≤ m) :
+    mk n lists (List.replicate m u) (List.replicate m v) = .ok (ofIvl n (min u v) (max u v)) := by
+  have hm : 0 < m := by omega
+  have hsw : (if lists then lexGe (List.replicate m u) (List.replicate m v)
+      else (if (List.replicate m u).length = (List.replicate m v).length
+        then allGe (List.replicate m u) (List.replicate m v) else false)) = decide (u ≥ v) := by
+    cases lists <;> simp [lexGe_replicate m u v hm, allGe_replicate m u v hm]
+  unfold mk
+  simp only [hsw]
+  by_cases h : u ≥ v
+  · simp only [h, decide_true, if_true]
+    show (boundSteps n (List.replicate m v) >>= fun l => boundSteps n (List.replicate m u) >>= fun r => _) = _
+    rw [boundSteps_replicate n m v hm hnm]; simp only [ok_bind]
+    rw [boundSteps_replicate n m u hm hnm]; simp only [ok_bind]
+    simp [isIncreasing_replicate, ofIvl, min_eq_right h, max_eq_left h]
+  · simp only [h, decide_false, if_false, Bool.false_eq_true]
+    show (boundSteps n (List.replicate m u) >>= fun l => boundSteps n (List.replicate m v) >>= fun r => _) = _
+    rw [boundSteps_replicate n m u hm hnm]; simp only [ok_bind]
+    rw [boundSteps_replicate n m v hm hnm]; simp only [ok_bind]
+    have h' : u ≤ v := le_of_lt (not_le.mp h)
+    simp [isIncreasing_replicate, ofIvl, min_eq_left h', max_eq_right h']
+
+/-! ## the combination rules on constant lists -/
+
+theorem frechetLeftRaw_replicate (op : Rat → Rat → Rat) (n : Nat) (a c : Rat) :
+    frechetLeftRaw op (List.replicate n a) (List.replicate n c) = List.replicate n (op a c) := by
+  unfold frechetLeftRaw
+  apply List.ext_getElem
+  · simp
+  · intro i h1 h2
+    simp only [List.length_map, List.length_range, List.length_replicate] at h1
+    simp only [List.getElem_map, List.getElem_range, List.take_replicate, List.reverse_replicate,
+      List.zipWith_replicate, List.getElem_replicate]
+    exact maxL_replicate 0 _ _ (by omega)
+
+theorem frechetRightRaw_replicate (op : Rat → Rat → Rat) (n : Nat) (b d : Rat) :
+    frechetRightRaw op (List.replicate n b) (List.replicate n d) = List.replicate n (op b d) := by
+  unfold frechetRightRaw
+  apply List.ext_getElem
+  · simp
+  · intro i h1 h2
+    simp only [List.length_map, List.length_range, List.length_replicate] at h1
+    simp only [List.getElem_map, List.getElem_range, List.drop_replicate, List.reverse_replicate,
+      List.zipWith_replicate, List.getElem_replicate]
+    exact minL_replicate 0 _ _ (by omega)
+
+theorem frechetOp_ofIvl (op : Rat → Rat → Rat) (n : Nat) (a b c d : Rat) :
+    frechetOp op (ofIvl n a b) (ofIvl n c d) = (List.replicate n (op a c), List.replicate n (op b d)) := by
+  simp [frechetOp, ofIvl, frechetLeftRaw_replicate, frechetRightRaw_replicate, sortR_replicate]
+
+theorem zip4_replicate (f : Rat → Rat → Rat → Rat → Rat) (n : Nat) (p q r s : Rat) :
+    zip4 f (List.replicate n p) (List.replicate n q) (List.replicate n r) (List.replicate n s) =
+      List.replicate n (f p q r s) := by
+  induction n with
+  | zero => simp [zip4]
+  | succ k ih => simp [List.replicate_succ, zip4, ih]
+
+theorem cornerPair_replicate (op : Rat → Rat → Rat) (n : Nat) (a b c d : Rat) :
+    cornerPair op (List.replicate n a) (List.replicate n b) (List.replicate n c) (List.replicate n d) =
+      (List.replicate n (min4 (op a c) (op a d) (op b c) (op b d)),
+       List.replicate n (max4 (op a c) (op a d) (op b c) (op b d))) := by
+  simp [cornerPair, List.zipWith_replicate, zip4_replicate]
+
+theorem perfectOp_ofIvl (op : Rat → Rat → Rat) (n : Nat) (a b c d : Rat) :
+    perfectOp op (ofIvl n a b) (ofIvl n c d) =
+      (List.replicate n (min4 (op a c) (op a d) (op b c) (op b d)),
+       List.replicate n (max4 (op a c) (op a d) (op b c) (op b d))) := by
+  simp [perfectOp, ofIvl, cornerPair_replicate, sortR_replicate]
+
+theorem oppositeOp_ofIvl (op : Rat → Rat → Rat) (n : Nat) (a b c d : Rat) :
+    oppositeOp op (ofIvl n a b) (ofIvl n c d) =
+      (List.replicate n (min4 (op a c) (op a d) (op b c) (op b d)),
+       List.replicate n (max4 (op a c) (op a d) (op b c) (op b d))) := by
+  simp [oppositeOp, ofIvl, List.reverse_replicate, cornerPair_replicate, sortR_replicate]
+
+theorem cartesian_replicate (op : Rat → Rat → Rat) (n m : Nat) (a c : Rat) :
+    cartesian op (List.replicate n a) (List.replicate m c) = List.replicate (n * m) (op a c) := by
+  unfold cartesian
+  rw [List.flatMap_replicate, List.map_replicate]
+  induction n with
+  | zero => simp
+  | succ k ih => rw [List.replicate_succ, List.flatten_cons, ih, Nat.succ_mul, Nat.add_comm,
+      List.replicate_add]
+
+theorem cornersSorted_ofIvl (op : Rat → Rat → Rat) (n : Nat) (a b c d : Rat) :
+    cornersSorted op (ofIvl n a b) (ofIvl n c d) =
+      (List.replicate (n * n) (min4 (op a c) (op a d) (op b c) (op b d)),
+       List.replicate (n * n) (max4 (op a c) (op a d) (op b c) (op b d))) := by
+  simp [cornersSorted, ofIvl, cartesian_replicate, zip4_replicate, sortR_replicate]
+
+theorem min4_le_max4 (p q r s : Rat) : min4 p q r s ≤ max4 p q r s := by
+  unfold min4 max4
+  exact le_trans (min_le_left _ _) (le_trans (min_le_left _ _) (le_trans (min_le_left _ _)
+    (le_trans (le_max_left p q) (le_trans (le_max_left _ r) (le_max_left _ s)))))
+
+/-! ## hull of the four corners (model's association) and the C01 association -/
+
+theorem min4_arith (p q r s : Rat) : min4 p q r s = Arith.min4 p q r s := by
+  unfold min4 Arith.min4; rw [min_assoc (min p q) r s]
+
+theorem max4_arith (p q r s : Rat) : max4 p q r s = Arith.max4 p q r s := by
+  unfold max4 Arith.max4; rw [max_assoc (max p q) r s]
+
+/-! ## public methods on constant p-boxes -/
+
+theorem mk_ofIvl (n : Nat) (lists : Bool) (u v : Rat) (hn : 0 < n) (h : u ≤ v) :
+    mk n lists (List.replicate n u) (List.replicate n v) = .ok (ofIvl n u v) := by
+  rw [mk_replicate n n lists u v hn (le_refl n), min_eq_left h, max_eq_right h]
+
+theorem mk_ofIvl_sq (n : Nat) (lists : Bool) (u v : Rat) (hn : 0 < n) (h : u ≤ v) :
+    mk n lists (List.replicate (n * n) u) (List.replicate (n * n) v) = .ok (ofIvl n u v) := by
+  rw [mk_replicate n (n * n) lists u v hn (Nat.le_mul_of_pos_left n hn), min_eq_left h, max_eq_right h]
+
+/-- `Interval(a,b).to_pbox()` -/
+theorem ivlToPbox_eq (n : Nat) (a b : Rat) (hn : 0 < n) (h : a ≤ b) :
+    ivlToPbox n a b = .ok (ofIvl n a b) := mk_ofIvl n false a b hn h
+
+/-- sum of two embedded intervals under any of the four dependencies -/
+theorem add_ofIvl (n : Nat) (dep : Dep) (hd : dep ≠ .unknown) (a b c d : Rat) (hn : 0 < n)
+    (hab : a ≤ b) (hcd : c ≤ d) :
+    add n dep (ofIvl n a b) (ofIvl n c d) = .ok (ofIvl n (a + c) (b + d)) := by
+  have e1 : min4 (a + c) (a + d) (b + c) (b + d) = a + c := by
+    unfold min4
+    rw [min_eq_left (by linarith : a + c ≤ a + d), min_eq_left (by linarith : a + c ≤ b + c),
+      min_eq_left (by linarith : a + c ≤ b + d)]
+  have e2 : max4 (a + c) (a + d) (b + c) (b + d) = b + d := by
+    unfold max4
+    exact max_eq_right (max_le (max_le (by linarith) (by linarith)) (by linarith))
+  have hle : a + c ≤ b + d := by linarith
+  cases dep with
+  | f => simp only [add, frechetOp_ofIvl]; exact mk_ofIvl n false _ _ hn hle
+  | p => simp only [add, perfectOp_ofIvl, e1, e2]; exact mk_ofIvl n false _ _ hn hle
+  | o => simp only [add, oppositeOp_ofIvl, e1, e2]; exact mk_ofIvl n false _ _ hn hle
+  | i => simp only [add, independentOp, cornersSorted_ofIvl, e1, e2]; exact mk_ofIvl_sq n false _ _ hn hle
+  | unknown => exact absurd rfl hd
+
+theorem neg_ofIvl (n : Nat) (a b : Rat) (hn : 0 < n) (hab : a ≤ b) :
+    neg n (ofIvl n a b) = .ok (ofIvl n (-b) (-a)) := by
+  unfold neg
+  simp only [ofIvl, List.reverse_replicate, List.map_replicate, sortR_replicate]
+  exact mk_ofIvl n true _ _ hn (by linarith)
+
+theorem swapPO_ne_unknown (d : Dep) (hd : d ≠ .unknown) : swapPO d ≠ .unknown := by
+  cases d <;> simp [swapPO] at hd ⊢
+
+/-- difference of two embedded intervals under any dependency -/
+theorem sub_ofIvl (n : Nat) (dep : Dep) (hd : dep ≠ .unknown) (a b c d : Rat) (hn : 0 < n)
+    (hab : a ≤ b) (hcd : c ≤ d) :
+    sub n dep (ofIvl n a b) (ofIvl n c d) = .ok (ofIvl n (a - d) (b - c)) := by
+  unfold sub
+  show (neg n (ofIvl n c d) >>= fun ny => add n (swapPO dep) (ofIvl n a b) ny) = _
+  rw [neg_ofIvl n c d hn hcd, ok_bind,
+    add_ofIvl n (swapPO dep) (swapPO_ne_unknown dep hd) a b (-d) (-c) hn hab (by linarith)]
+  simp [sub_eq_add_neg]
+
+/-- product of two embedded intervals under perfect / opposite / independent dependence:
+the four-corner hull for every sign -/
+theorem mul_ofIvl_poi (n : Nat) (dep : Dep) (hd : dep = .p ∨ dep = .o ∨ dep = .i) (a b c d : Rat)
+    (hn : 0 < n) :
+    mul n dep (ofIvl n a b) (ofIvl n c d) =
+      .ok (ofIvl n (min4 (a*c) (a*d) (b*c) (b*d)) (max4 (a*c) (a*d) (b*c) (b*d))) := by
+  rcases hd with h | h | h <;> subst h
+  · simp only [mul, perfectOp_ofIvl]; exact mk_ofIvl n false _ _ hn (min4_le_max4 _ _ _ _)
+  · simp only [mul, oppositeOp_ofIvl]; exact mk_ofIvl n false _ _ hn (min4_le_max4 _ _ _ _)
+  · simp only [mul, independentOp, cornersSorted_ofIvl]; exact mk_ofIvl_sq n false _ _ hn (min4_le_max4 _ _ _ _)
+
+theorem hasZero_replicate (n : Nat) (v : Rat) (hn : 0 < n) : hasZero (List.replicate n v) = decide (v = 0) := by
+  unfold hasZero
+  rw [List.any_replicate]
+  simp only [Nat.pos_iff_ne_zero.mp hn, if_false]
+  rw [Bool.eq_iff_iff]; simp
+
+theorem one_div_anti (c d : Rat) (hcd : c ≤ d) (h0 : 0 < c ∨ d < 0) : 1 / d ≤ 1 / c := by
+  rcases h0 with h | h
+  · exact one_div_le_one_div_of_le h hcd
+  · rw [one_div, one_div]; exact (inv_le_inv_of_neg h (lt_of_le_of_lt hcd h)).mpr hcd
+
+/-- reciprocal of an embedded interval not containing zero -/
+theorem recip_ofIvl (n : Nat) (c d : Rat) (hn : 0 < n) (hcd : c ≤ d) (h0 : 0 < c ∨ d < 0) :
+    recip n (ofIvl n c d) = .ok (ofIvl n (1 / d) (1 / c)) := by
+  have hc : c ≠ 0 := by rcases h0 with h | h <;> intro e <;> linarith
+  have hd : d ≠ 0 := by rcases h0 with h | h <;> intro e <;> linarith
+  have hle : 1 / d ≤ 1 / c := one_div_anti c d hcd h0
+  unfold recip
+  simp only [ofIvl, hasZero_replicate n _ hn, hc, hd, decide_false, Bool.or_self, Bool.false_eq_true,
+    if_false, List.reverse_replicate, List.map_replicate]
+  exact mk_ofIvl n false _ _ hn hle
+
+/-- number operation on an embedded interval (`pbox_number_ops`) -/
+theorem numberOp_ofIvl (n : Nat) (f : Rat → Rat → Rat) (a b c : Rat) (hn : 0 < n) :
+    numberOp n f (ofIvl n a b) c = .ok (ofIvl n (min (f a c) (f b c)) (max (f a c) (f b c))) := by
+  unfold numberOp
+  simp only [ofIvl, List.map_replicate, sortR_replicate]
+  exact mk_replicate n n true _ _ hn (le_refl n)
+
+/-- `1 / other` for an embedded interval: `1 * other.reciprocal()` -/
+theorem recipOne_ofIvl (n : Nat) (c d : Rat) (hn : 0 < n) (hcd : c ≤ d) (h0 : 0 < c ∨ d < 0) :
+    (recip n (ofIvl n c d) >>= fun r => numberOp n (· * ·) r 1) = .ok (ofIvl n (1 / d) (1 / c)) := by
+  have hle : 1 / d ≤ 1 / c := one_div_anti c d hcd h0
+  rw [recip_ofIvl n c d hn hcd h0, ok_bind, numberOp_ofIvl n _ _ _ _ hn]
+  simp only [mul_one, min_eq_left hle, max_eq_right hle]
+
+/-- quotient of two embedded intervals under perfect / opposite / independent dependence -/
+theorem div_ofIvl_poi (n : Nat) (dep : Dep) (hd : dep = .p ∨ dep = .o ∨ dep = .i) (a b c d : Rat)
+    (hn : 0 < n) (hcd : c ≤ d) (h0 : 0 < c ∨ d < 0) :
+    div n dep (ofIvl n a b) (ofIvl n c d) =
+      .ok (ofIvl n (min4 (a*(1/d)) (a*(1/c)) (b*(1/d)) (b*(1/c))) (max4 (a*(1/d)) (a*(1/c)) (b*(1/d)) (b*(1/c)))) := by
+  unfold div
+  show (recip n (ofIvl n c d) >>= fun r => numberOp n (· * ·) r 1 >>= fun r1 => mul n (swapPO dep) (ofIvl n a b) r1) = _
+  have hle := one_div_anti c d hcd h0
+  rw [recip_ofIvl n c d hn hcd h0, ok_bind, numberOp_ofIvl n _ _ _ _ hn, ok_bind]
+  simp only [mul_one, min_eq_left hle, max_eq_right hle]
+  apply mul_ofIvl_poi n (swapPO dep) _ a b _ _ hn
+  rcases hd with h | h | h <;> subst h <;> simp [swapPO]
+
+/-! ## the Frechet product of constant p-boxes -/
+
+theorem hi_ofIvl (n : Nat) (a b : Rat) (hn : 0 < n) : hi (ofIvl n a b) = b := by
+  obtain ⟨k, rfl⟩ : ∃ k, n = k + 1 := ⟨n - 1, by omega⟩
+  simp [hi, ofIvl, List.replicate_succ', List.getLastD_eq_getLast?]
+
+theorem lo_ofIvl (n : Nat) (a b : Rat) (hn : 0 < n) : lo (ofIvl n a b) = a := by
+  obtain ⟨k, rfl⟩ : ∃ k, n = k + 1 := ⟨n - 1, by omega⟩
+  simp [lo, ofIvl, List.replicate_succ]
+
+theorem straddlesZero_ofIvl (n : Nat) (a b : Rat) (hn : 0 < n) :
+    straddlesZero (ofIvl n a b) = (decide (a < 0) && decide (b > 0)) := by
+  simp [straddlesZero, ofIvl, minL_replicate 0 n a hn, maxL_replicate 0 n b hn]
+
+theorem classicFrechet_ofIvl (n : Nat) (op : Rat → Rat → Rat) (a b c d : Rat) (hn : 0 < n) :
+    classicFrechet n op (ofIvl n a b) (ofIvl n c d) =
+      .ok (ofIvl n (min (op a c) (op b d)) (max (op a c) (op b d))) := by
+  simp only [classicFrechet, frechetOp_ofIvl]
+  exact mk_replicate n n false _ _ hn (le_refl n)
+
+/-- a constant p-box `[L,U]` whose endpoints are the extreme corner products is the corner hull -/
+theorem ofIvl_hull (n : Nat) (p q r s L U : Rat)
+    (hL : L = p ∨ L = q ∨ L = r ∨ L = s) (hU : U = p ∨ U = q ∨ U = r ∨ U = s)
+    (l1 : L ≤ p) (l2 : L ≤ q) (l3 : L ≤ r) (l4 : L ≤ s)
+    (u1 : p ≤ U) (u2 : q ≤ U) (u3 : r ≤ U) (u4 : s ≤ U) :
+    ofIvl n L U = ofIvl n (min4 p q r s) (max4 p q r s) := by
+  rw [min4_arith, max4_arith, Arith.min4_eq hL l1 l2 l3 l4, Arith.max4_eq hU u1 u2 u3 u4]
+
+/-- Frechet product of two embedded intervals neither of which straddles zero -/
+theorem frechetMulNoStraddle_ofIvl (n : Nat) (a b c d : Rat) (hn : 0 < n) (hab : a ≤ b) (hcd : c ≤ d)
+    (hx : b ≤ 0 ∨ 0 ≤ a) (hy : d ≤ 0 ∨ 0 ≤ c) :
+    frechetMulNoStraddle n (ofIvl n a b) (ofIvl n c d) =
+      .ok (ofIvl n (min4 (a*c) (a*d) (b*c) (b*d)) (max4 (a*c) (a*d) (b*c) (b*d))) := by
+  unfold frechetMulNoStraddle negativeFrechet
+  simp only [hi_ofIvl n _ _ hn]
+  by_cases hb : b ≤ 0 <;> by_cases hd : d ≤ 0
+  · -- both non-positive
+    simp only [hb, hd, decide_true, Bool.or_self, if_true, Bool.xor_self, Bool.false_eq_true, if_false]
+    show (neg n (ofIvl n a b) >>= fun x => neg n (ofIvl n c d) >>= fun y => classicFrechet n (· * ·) x y >>= fun r => pure r) = _
+    rw [neg_ofIvl n a b hn hab, ok_bind, neg_ofIvl n c d hn hcd, ok_bind, classicFrechet_ofIvl n _ _ _ _ _ hn, ok_bind]
+    have h1 : -b * -d ≤ -a * -c := by nlinarith
+    rw [min_eq_left h1, max_eq_right h1]
+    show Except.ok (ofIvl n _ _) = _
+    congr 1
+    apply ofIvl_hull
+    · right; right; right; ring
+    · left; ring
+    all_goals nlinarith
+  · -- x non-positive, y non-negative
+    have hc : 0 ≤ c := by rcases hy with h | h; exact absurd h hd; exact h
+    have hd' : 0 < d := not_le.mp hd
+    simp only [hb, hd, decide_true, decide_false, Bool.true_or, if_true, Bool.false_eq_true, if_false, Bool.true_xor, Bool.not_false]
+    show (neg n (ofIvl n a b) >>= fun x => pure (ofIvl n c d) >>= fun y => classicFrechet n (· * ·) x y >>= fun r => neg n r) = _
+    rw [neg_ofIvl n a b hn hab, ok_bind]
+    show (classicFrechet n (· * ·) (ofIvl n (-b) (-a)) (ofIvl n c d) >>= fun r => neg n r) = _
+    rw [classicFrechet_ofIvl n _ _ _ _ _ hn, ok_bind]
+    have h1 : -b * c ≤ -a * d := by nlinarith
+    rw [min_eq_left h1, max_eq_right h1, neg_ofIvl n _ _ hn h1]
+    congr 1
+    apply ofIvl_hull
+    · right; left; ring
+    · right; right; left; ring
+    all_goals nlinarith
+  · -- x non-negative, y non-positive
+    have ha : 0 ≤ a := by rcases hx with h | h; exact absurd h hb; exact h
+    have hb' : 0 < b := not_le.mp hb
+    simp only [hb, hd, decide_true, decide_false, Bool.or_true, if_true, Bool.false_eq_true, if_false, Bool.false_xor]
+    show (pure (ofIvl n a b) >>= fun x => neg n (ofIvl n c d) >>= fun y => classicFrechet n (· * ·) x y >>= fun r => neg n r) = _
+    show (neg n (ofIvl n c d) >>= fun y => classicFrechet n (· * ·) (ofIvl n a b) y >>= fun r => neg n r) = _
+    rw [neg_ofIvl n c d hn hcd, ok_bind, classicFrechet_ofIvl n _ _ _ _ _ hn, ok_bind]
+    have h1 : a * -d ≤ b * -c := by nlinarith
+    rw [min_eq_left h1, max_eq_right h1, neg_ofIvl n _ _ hn h1]
+    congr 1
+    apply ofIvl_hull
+    · right; right; left; ring
+    · right; left; ring
+    all_goals nlinarith
+  · -- both non-negative
+    have ha : 0 ≤ a := by rcases hx with h | h; exact absurd h hb; exact h
+    have hc : 0 ≤ c := by rcases hy with h | h; exact absurd h hd; exact h
+    simp only [hb, hd, decide_false, Bool.or_self, Bool.false_eq_true, if_false]
+    rw [classicFrechet_ofIvl n _ _ _ _ _ hn]
+    have h1 : a * c ≤ b * d := by nlinarith
+    rw [min_eq_left h1, max_eq_right h1]
+    congr 1
+    apply ofIvl_hull
+    · left; rfl
+    · right; right; right; rfl
+    all_goals nlinarith
+
+
+theorem naiveOp_ofIvl (op : Rat → Rat → Rat) (n : Nat) (a b c d : Rat) :
+    naiveOp op (ofIvl n a b) (ofIvl n c d) =
+      (List.replicate n (min4 (op a c) (op a d) (op b c) (op b d)),
+       List.replicate n (max4 (op a c) (op a d) (op b c) (op b d))) := by
+  unfold naiveOp
+  simp only [cornersSorted_ofIvl]
+  have h1 : (ofIvl n a b).left.length = n := by simp [ofIvl]
+  simp only [h1, List.take_replicate, List.drop_replicate]
+  have h2 : min n (n * n) = n := by
+    rcases Nat.eq_zero_or_pos n with h | h
+    · subst h; simp
+    · exact Nat.min_eq_left (Nat.le_mul_of_pos_left n h)
+  have h3 : n * n - (n * n - n) = n := by
+    rcases Nat.eq_zero_or_pos n with h | h
+    · subst h; simp
+    · have := Nat.le_mul_of_pos_left n h; omega
+  rw [h2, h3]
+
+/-- imposition (intersection) of two constant p-boxes that overlap -/
+theorem imp_ofIvl (n : Nat) (a b c d : Rat) (hn : 0 < n) (h : max a c ≤ min b d) :
+    imp n (ofIvl n a b) (ofIvl n c d) = .ok (ofIvl n (max a c) (min b d)) := by
+  unfold imp
+  simp only [ofIvl, List.zipWith_replicate, Nat.min_self, List.zip_replicate', List.any_replicate,
+    Nat.pos_iff_ne_zero.mp hn, if_false, gt_iff_lt, not_lt.mpr h, decide_false, Bool.false_eq_true]
+  exact mk_ofIvl n true _ _ hn h
+
+/-- `x.balchprod(y)` for embedded intervals, `y` straddling zero: a constant p-box that encloses the corner hull -/
+theorem balchprod_ofIvl (n : Nat) (a b c d : Rat) (hn : 0 < n) (hab : a ≤ b) (hcd : c ≤ d)
+    (hy : c < 0 ∧ 0 < d) :
+    ∃ L U, balchprod n (ofIvl n a b) (ofIvl n c d) = .ok (ofIvl n L U) ∧
+      L ≤ min4 (a*c) (a*d) (b*c) (b*d) ∧ max4 (a*c) (a*d) (b*c) (b*d) ≤ U := by
+  have hm4 : ∀ L, L ≤ a*c → L ≤ a*d → L ≤ b*c → L ≤ b*d → L ≤ min4 (a*c) (a*d) (b*c) (b*d) := by
+    intro L h1 h2 h3 h4; unfold min4; exact le_min (le_min (le_min h1 h2) h3) h4
+  have hM4 : ∀ U, a*c ≤ U → a*d ≤ U → b*c ≤ U → b*d ≤ U → max4 (a*c) (a*d) (b*c) (b*d) ≤ U := by
+    intro U h1 h2 h3 h4; unfold max4; exact max_le (max_le (max_le h1 h2) h3) h4
+  have hdc : (0:Rat) ≤ d - c := by linarith
+  unfold balchprod
+  simp only [straddlesZero_ofIvl n _ _ hn, lo_ofIvl n _ _ hn, hy.1, hy.2, gt_iff_lt, decide_true, Bool.and_true, Bool.true_and]
+  by_cases hx : a < 0 ∧ 0 < b
+  · -- both straddle
+    simp only [hx.1, hx.2, decide_true, Bool.and_self, if_true]
+    have hba : (0:Rat) ≤ b - a := by linarith
+    have e1 : numberOp n (· - ·) (ofIvl n a b) a = .ok (ofIvl n 0 (b - a)) := by
+      rw [numberOp_ofIvl n _ _ _ _ hn]; simp only [sub_self, min_eq_left hba, max_eq_right hba]
+    have e2 : numberOp n (· - ·) (ofIvl n c d) c = .ok (ofIvl n 0 (d - c)) := by
+      rw [numberOp_ofIvl n _ _ _ _ hn]; simp only [sub_self, min_eq_left hdc, max_eq_right hdc]
+    have e3 := frechetMulNoStraddle_ofIvl n 0 (b - a) 0 (d - c) hn hba hdc (Or.inr (le_refl 0)) (Or.inr (le_refl 0))
+    have e4 := numberOp_ofIvl n (· * ·) 0 (b - a) c hn
+    have e5 := numberOp_ofIvl n (· * ·) 0 (d - c) a hn
+    rw [e1, ok_bind, e2, ok_bind, e3, ok_bind, e4, ok_bind, e5, ok_bind, classicFrechet_ofIvl n _ _ _ _ _ hn, ok_bind,
+      classicFrechet_ofIvl n _ _ _ _ _ hn, ok_bind, numberOp_ofIvl n _ _ _ _ hn]
+    refine ⟨_, _, rfl, ?_, ?_⟩
+    · -- lower
+      set A := min4 (0 * 0) (0 * (d - c)) ((b - a) * 0) ((b - a) * (d - c)) with hA
+      have A1 : A ≤ 0 * 0 := by rw [hA, min4_arith]; unfold Arith.min4; exact le_trans (min_le_left _ _) (min_le_left _ _)
+      have A2 : A ≤ 0 * (d - c) := by rw [hA, min4_arith]; unfold Arith.min4; exact le_trans (min_le_left _ _) (min_le_right _ _)
+      have A3 : A ≤ (b - a) * 0 := by rw [hA, min4_arith]; unfold Arith.min4; exact le_trans (min_le_right _ _) (min_le_left _ _)
+      have A4 : A ≤ (b - a) * (d - c) := by rw [hA, min4_arith]; unfold Arith.min4; exact le_trans (min_le_right _ _) (min_le_right _ _)
+      set p1 := min (0 * c) ((b - a) * c) with hp1
+      set p2 := min (0 * a) ((d - c) * a) with hp2
+      have P11 : p1 ≤ 0 * c := min_le_left _ _
+      have P12 : p1 ≤ (b - a) * c := min_le_right _ _
+      have P21 : p2 ≤ 0 * a := min_le_left _ _
+      have P22 : p2 ≤ (d - c) * a := min_le_right _ _
+      have hB : min (p1 + p2) (max (0 * c) ((b - a) * c) + max (0 * a) ((d - c) * a)) ≤ p1 + p2 := min_le_left _ _
+      have hS := min_le_left (A + min (p1 + p2) (max (0 * c) ((b - a) * c) + max (0 * a) ((d - c) * a)))
+        (max4 (0 * 0) (0 * (d - c)) ((b - a) * 0) ((b - a) * (d - c)) + max (p1 + p2) (max (0 * c) ((b - a) * c) + max (0 * a) ((d - c) * a)))
+      apply hm4 <;> refine le_trans (min_le_left _ _) ?_ <;> nlinarith
+    · set A := max4 (0 * 0) (0 * (d - c)) ((b - a) * 0) ((b - a) * (d - c)) with hA
+      have A1 : 0 * 0 ≤ A := by rw [hA, max4_arith]; unfold Arith.max4; exact le_trans (le_max_left _ _) (le_max_left _ _)
+      have A2 : 0 * (d - c) ≤ A := by rw [hA, max4_arith]; unfold Arith.max4; exact le_trans (le_max_right _ _) (le_max_left _ _)
+      have A3 : (b - a) * 0 ≤ A := by rw [hA, max4_arith]; unfold Arith.max4; exact le_trans (le_max_left _ _) (le_max_right _ _)
+      have A4 : (b - a) * (d - c) ≤ A := by rw [hA, max4_arith]; unfold Arith.max4; exact le_trans (le_max_right _ _) (le_max_right _ _)
+      set p1 := max (0 * c) ((b - a) * c) with hp1
+      set p2 := max (0 * a) ((d - c) * a) with hp2
+      have P11 : 0 * c ≤ p1 := le_max_left _ _
+      have P12 : (b - a) * c ≤ p1 := le_max_right _ _
+      have P21 : 0 * a ≤ p2 := le_max_left _ _
+      have P22 : (d - c) * a ≤ p2 := le_max_right _ _
+      have hB : p1 + p2 ≤ max (min (0 * c) ((b - a) * c) + min (0 * a) ((d - c) * a)) (p1 + p2) := le_max_right _ _
+      have hS := le_max_right (min4 (0 * 0) (0 * (d - c)) ((b - a) * 0) ((b - a) * (d - c)) + min (min (0 * c) ((b - a) * c) + min (0 * a) ((d - c) * a)) (p1 + p2))
+        (A + max (min (0 * c) ((b - a) * c) + min (0 * a) ((d - c) * a)) (p1 + p2))
+      apply hM4 <;> refine le_trans ?_ (le_max_right _ _) <;> nlinarith
+  · -- only `y` straddles
+    have hx' : b ≤ 0 ∨ 0 ≤ a := by
+      by_cases h : a < 0
+      · left; by_contra hb; exact hx ⟨h, not_le.mp hb⟩
+      · right; exact not_lt.mp h
+    have hxs : (decide (a < 0) && decide (0 < b)) = false := by
+      rcases hx' with h | h
+      · simp [not_lt.mpr h]
+      · simp [not_lt.mpr h]
+    simp only [hxs, Bool.false_eq_true, if_false, if_true]
+    have e2 : numberOp n (· - ·) (ofIvl n c d) c = .ok (ofIvl n 0 (d - c)) := by
+      rw [numberOp_ofIvl n _ _ _ _ hn]; simp only [sub_self, min_eq_left hdc, max_eq_right hdc]
+    have e3 := frechetMulNoStraddle_ofIvl n a b 0 (d - c) hn hab hdc hx' (Or.inr (le_refl 0))
+    rw [e2, ok_bind, e3, ok_bind, numberOp_ofIvl n _ _ _ _ hn, ok_bind, classicFrechet_ofIvl n _ _ _ _ _ hn]
+    refine ⟨_, _, rfl, ?_, ?_⟩
+    · set A := min4 (a * 0) (a * (d - c)) (b * 0) (b * (d - c)) with hA
+      have A1 : A ≤ a * 0 := by rw [hA, min4_arith]; unfold Arith.min4; exact le_trans (min_le_left _ _) (min_le_left _ _)
+      have A2 : A ≤ a * (d - c) := by rw [hA, min4_arith]; unfold Arith.min4; exact le_trans (min_le_left _ _) (min_le_right _ _)
+      have A3 : A ≤ b * 0 := by rw [hA, min4_arith]; unfold Arith.min4; exact le_trans (min_le_right _ _) (min_le_left _ _)
+      have A4 : A ≤ b * (d - c) := by rw [hA, min4_arith]; unfold Arith.min4; exact le_trans (min_le_right _ _) (min_le_right _ _)
+      set p1 := min (a * c) (b * c) with hp1
+      have P11 : p1 ≤ a * c := min_le_left _ _
+      have P12 : p1 ≤ b * c := min_le_right _ _
+      apply hm4 <;> refine le_trans (min_le_left _ _) ?_ <;> nlinarith
+    · set A := max4 (a * 0) (a * (d - c)) (b * 0) (b * (d - c)) with hA
+      have A1 : a * 0 ≤ A := by rw [hA, max4_arith]; unfold Arith.max4; exact le_trans (le_max_left _ _) (le_max_left _ _)
+      have A2 : a * (d - c) ≤ A := by rw [hA, max4_arith]; unfold Arith.max4; exact le_trans (le_max_right _ _) (le_max_left _ _)
+      have A3 : b * 0 ≤ A := by rw [hA, max4_arith]; unfold Arith.max4; exact le_trans (le_max_left _ _) (le_max_right _ _)
+      have A4 : b * (d - c) ≤ A := by rw [hA, max4_arith]; unfold Arith.max4; exact le_trans (le_max_right _ _) (le_max_right _ _)
+      set p1 := max (a * c) (b * c) with hp1
+      have P11 : a * c ≤ p1 := le_max_left _ _
+      have P12 : b * c ≤ p1 := le_max_right _ _
+      apply hM4 <;> refine le_trans ?_ (le_max_right _ _) <;> nlinarith
+
+/-- `straddle_frechet_pbox(x, y)` on embedded intervals: naive ∩ Balch = the corner hull -/
+theorem straddleFrechet_ofIvl (n : Nat) (a b c d : Rat) (hn : 0 < n) (hab : a ≤ b) (hcd : c ≤ d)
+    (hy : c < 0 ∧ 0 < d) :
+    straddleFrechet n (ofIvl n a b) (ofIvl n c d) =
+      .ok (ofIvl n (min4 (a*c) (a*d) (b*c) (b*d)) (max4 (a*c) (a*d) (b*c) (b*d))) := by
+  obtain ⟨L, U, hB, hL, hU⟩ := balchprod_ofIvl n a b c d hn hab hcd hy
+  unfold straddleFrechet
+  simp only [naiveOp_ofIvl]
+  rw [mk_ofIvl n false _ _ hn (min4_le_max4 _ _ _ _), ok_bind, hB, ok_bind]
+  have h1 : max (min4 (a*c) (a*d) (b*c) (b*d)) L = min4 (a*c) (a*d) (b*c) (b*d) := max_eq_left hL
+  have h2 : min (max4 (a*c) (a*d) (b*c) (b*d)) U = max4 (a*c) (a*d) (b*c) (b*d) := min_eq_left hU
+  rw [imp_ofIvl n _ _ _ _ hn (by rw [h1, h2]; exact min4_le_max4 _ _ _ _), h1, h2]
+
+theorem min4_swap (a b c d : Rat) : min4 (c*a) (c*b) (d*a) (d*b) = min4 (a*c) (a*d) (b*c) (b*d) := by
+  unfold min4
+  rw [mul_comm c a, mul_comm c b, mul_comm d a, mul_comm d b, min_assoc (min (a*c) (b*c)), min_assoc (min (a*c) (a*d)),
+    min_assoc (a*c), min_assoc (a*c), min_left_comm (b*c)]
+
+theorem max4_swap (a b c d : Rat) : max4 (c*a) (c*b) (d*a) (d*b) = max4 (a*c) (a*d) (b*c) (b*d) := by
+  unfold max4
+  rw [mul_comm c a, mul_comm c b, mul_comm d a, mul_comm d b, max_assoc (max (a*c) (b*c)), max_assoc (max (a*c) (a*d)),
+    max_assoc (a*c), max_assoc (a*c), max_left_comm (b*c)]
+
+/-- **Frechet product of two embedded intervals, every sign case**: the corner hull -/
+theorem frechetMul_ofIvl (n : Nat) (a b c d : Rat) (hn : 0 < n) (hab : a ≤ b) (hcd : c ≤ d) :
+    frechetMul n (ofIvl n a b) (ofIvl n c d) =
+      .ok (ofIvl n (min4 (a*c) (a*d) (b*c) (b*d)) (max4 (a*c) (a*d) (b*c) (b*d))) := by
+  unfold frechetMul
+  simp only [straddlesZero_ofIvl n _ _ hn]
+  by_cases hy : c < 0 ∧ 0 < d
+  · simp only [hy.1, hy.2, gt_iff_lt, decide_true, Bool.and_self, Bool.or_true, if_true]
+    exact straddleFrechet_ofIvl n a b c d hn hab hcd hy
+  · have hys : (decide (c < 0) && decide (d > 0)) = false := by
+      by_cases h : c < 0
+      · have : ¬ 0 < d := fun h' => hy ⟨h, h'⟩
+        simp [this]
+      · simp [h]
+    by_cases hx : a < 0 ∧ 0 < b
+    · simp only [hys, hx.1, hx.2, gt_iff_lt, decide_true, Bool.and_self, Bool.true_or, if_true, Bool.false_eq_true, if_false]
+      rw [straddleFrechet_ofIvl n c d a b hn hcd hab hx, min4_swap, max4_swap]
+    · have hxs : (decide (a < 0) && decide (b > 0)) = false := by
+        by_cases h : a < 0
+        · have : ¬ 0 < b := fun h' => hx ⟨h, h'⟩
+          simp [this]
+        · simp [h]
+      simp only [hys, hxs, Bool.or_self, Bool.false_eq_true, if_false]
+      apply frechetMulNoStraddle_ofIvl n a b c d hn hab hcd
+      · by_cases h : a < 0
+        · left; by_contra hb; exact hx ⟨h, not_le.mp hb⟩
+        · right; exact not_lt.mp h
+      · by_cases h : c < 0
+        · left; by_contra hb; exact hy ⟨h, not_le.mp hb⟩
+        · right; exact not_lt.mp h
+
+
+/-- product of two embedded intervals under any dependency -/
+theorem mul_ofIvl (n : Nat) (dep : Dep) (hd : dep ≠ .unknown) (a b c d : Rat) (hn : 0 < n)
+    (hab : a ≤ b) (hcd : c ≤ d) :
+    mul n dep (ofIvl n a b) (ofIvl n c d) =
+      .ok (ofIvl n (min4 (a*c) (a*d) (b*c) (b*d)) (max4 (a*c) (a*d) (b*c) (b*d))) := by
+  cases dep with
+  | f => exact frechetMul_ofIvl n a b c d hn hab hcd
+  | p => exact mul_ofIvl_poi n .p (Or.inl rfl) a b c d hn
+  | o => exact mul_ofIvl_poi n .o (Or.inr (Or.inl rfl)) a b c d hn
+  | i => exact mul_ofIvl_poi n .i (Or.inr (Or.inr rfl)) a b c d hn
+  | unknown => exact absurd rfl hd
+
+/-- quotient of two embedded intervals (divisor without zero) under any dependency -/
+theorem div_ofIvl (n : Nat) (dep : Dep) (hd : dep ≠ .unknown) (a b c d : Rat) (hn : 0 < n)
+    (hab : a ≤ b) (hcd : c ≤ d) (h0 : 0 < c ∨ d < 0) :
+    div n dep (ofIvl n a b) (ofIvl n c d) =
+      .ok (ofIvl n (min4 (a*(1/d)) (a*(1/c)) (b*(1/d)) (b*(1/c))) (max4 (a*(1/d)) (a*(1/c)) (b*(1/d)) (b*(1/c)))) := by
+  unfold div
+  have hle := one_div_anti c d hcd h0
+  rw [recip_ofIvl n c d hn hcd h0, ok_bind, numberOp_ofIvl n _ _ _ _ hn, ok_bind]
+  simp only [mul_one, min_eq_left hle, max_eq_right hle]
+  exact mul_ofIvl n (swapPO dep) (swapPO_ne_unknown dep hd) a b _ _ hn hab hle
+
 end Pun.Hier
